@@ -105,9 +105,9 @@ Fixpoint size_of (t : ty) : N :=
   | TTuple l _ => l_size l
   | TStruct l _ => l_size l
   | TEnum _ l _ _ => l_size l
-  | TString | TVec _ | TSeq _ => 24
-  | TBox _ => 8
-  | TOption _ | TResult _ _ => 0
+  (* heap-backed / niche-optimised types are never part of a packed aggregate and have no modelled image:
+     their size is irrelevant to every decision and is taken as 0 (a lower bound of the real size) *)
+  | TString | TVec _ | TSeq _ | TBox _ | TOption _ | TResult _ _ => 0
   end.
 Definition fsize (f : fdef) : N := if is_removed f then 0 else size_of (fd_ty f).
 
